@@ -50,6 +50,20 @@ theorem step_call (name : String) (fn : Func) (s : St) (h : findFunc fs name = s
   split <;> simp_all
   intro h'; omega
 
+/-- entering a function from outside: look it up, run its body, collect the results -/
+theorem callFuel_run (name : String) (fn : Func) (args : List Int) (h : findFunc fs name = some fn)
+    (hp : fn.params ≤ args.length) :
+    callFuel fs gl (f + 1) name args =
+      (callRet fn ⟨[], args.reverse⟩ (run fs gl f fn.body
+        ⟨(args.reverse.take fn.params).reverse ++ List.replicate fn.locals 0, []⟩)).map
+        (fun r => (r.2.stack.take fn.results).reverse) := by
+  unfold callFuel
+  rw [h, step_call fs gl f name fn _ h (by simpa using hp)]
+  rfl
+
+theorem ite_true_nr {α : Type} (a b : α) : (if True then a else b) = a := if_pos trivial
+theorem ite_false_nr {α : Type} (a b : α) : (if False then a else b) = b := if_neg not_false
+
 theorem callRet_some (fn : Func) (s : St) (c : Ctl) (s' : St) (h : fn.results ≤ s'.stack.length) :
     callRet fn s (some (c, s')) = some (.next, ⟨s.locals, s'.stack.take fn.results ++ s.stack.drop fn.params⟩) := by
   have : ¬ s'.stack.length < fn.results := by omega
